@@ -334,6 +334,21 @@ theorem C13_intersection_dense_count_end_counterexample :
     (D.count s0).1 = 1 ∧ D.doc (D.count s0).2 = 2000 := by
   decide +kernel
 
+/-- the dense count ANDs one fresh block mask per child: with five clauses of which the fourth and
+fifth (in cost order) are the ones that filter, it returns the size of the intersection (13), not the
+size of the first three (40). A checked instance of the model (a test, not the open theorem
+"dense count = length of the common documents"); the harness drives the real code over 4-6-clause
+dense intersections against the same model and the brute-force count. -/
+theorem C13_intersection_dense_count_five_clauses_instance :
+    let D := Inter.ds Vec.ds
+    let a := Vec.init (List.range 40) 1
+    let b := Vec.init (List.range 60) 1
+    let c := Vec.init (List.range 80) 1
+    let g := Vec.init ((List.range 200).filter (fun d => d ≥ 40 || d % 2 == 1)) 1
+    let h := Vec.init ((List.range 220).filter (fun d => d ≥ 40 || d % 3 != 0)) 1
+    (D.count (Inter.new Vec.ds true a b [c, g, h])).1 = 13 := by
+  decide +kernel
+
 /-- a buffered union asked `seek_danger t` with `t` below its window start answers from its
 children only: the bound overshoots its own buffered documents (HORIZON = 64 instance: buffered
 {500, 510}, child at 2000; `seek_danger 460` = SeekLowerBound 2000 although 500 is a member). -/
